@@ -1051,7 +1051,26 @@ func (c *Conn) handleBdat(arg string) {
 		// the whole chunk.
 		io.Copy(ioutil.Discard, chunk)
 
-		c.writeResponse(dataErrorToStatus(err))
+		backendDone := false
+		if last && c.server.LMTP {
+			select {
+			case err = <-c.dataResult:
+				backendDone = true
+			default:
+			}
+		}
+		if backendDone {
+			// The backend has returned while the LAST chunk was being
+			// sent: the final LMTP response is due, one reply per
+			// recipient.
+			c.bdatStatus.fillRemaining(err)
+			for i, rcpt := range c.recipients {
+				code, enchCode, msg := dataErrorToStatus(<-c.bdatStatus.status[i])
+				c.writeResponse(code, enchCode, "<"+rcpt+"> "+msg)
+			}
+		} else {
+			c.writeResponse(dataErrorToStatus(err))
+		}
 
 		if err == errPanic || chunk.N > 0 {
 			// After a panic, or when the rest of the chunk could not be
